@@ -701,6 +701,8 @@ func assignsBody(text string) string {
 		switch {
 		case strings.HasPrefix(it, "spare(") && strings.HasSuffix(it, ")"):
 			fmt.Fprintf(&sb, "\tAssignsSpare(%s)\n", it[6:len(it)-1])
+		case strings.HasPrefix(it, "object(") && strings.HasSuffix(it, ")"):
+			fmt.Fprintf(&sb, "\tAssignsObject(%s)\n", it[7:len(it)-1])
 		case strings.HasPrefix(it, "ghost(") && strings.HasSuffix(it, ")"):
 			fmt.Fprintf(&sb, "\tAssignsGhost(%s)\n", it[6:len(it)-1])
 		case strings.HasSuffix(it, "[:]"):
